@@ -19,6 +19,9 @@
 (*   as found   CacheKey="addr"  Order="map"  PkCache="formatted"          *)
 (*              (TLC finds histories violating Pure - candidates that the  *)
 (*               driver replays on the real code)                          *)
+(*              (also CacheKey="addr+gated": key = address + enabled drivers *)
+(*               with a positive enable height; wrong when a driver has a  *)
+(*               negative enable height, which is off at h >= 0, on at -1) *)
 (*   repaired   CacheKey="addr+enabled"  Order="id"  PkCache="raw"         *)
 (*              (Pure holds for all histories)                             *)
 (* Independently of which mechanism the code has, the generated histories  *)
@@ -42,6 +45,9 @@ CONSTANTS Heights,   \* query heights (naturals)
           FkB58,     \* ForkBase58AddressCheck
           FkFmt,     \* ForkFormatAddressKey
           EnSig,     \* enable height of the gated signature type
+          OffDrivers,\* address drivers configured with a negative enable height (the stock default has eth = -2):
+                     \* off at every h >= 0, but on when there is no height context (h = -1)
+          SigOff,    \* TRUE: the signature type is configured with a negative enable height
           MaxLen,    \* number of steps of a history
           Mode,      \* "all": a step queries every input at one height; "single": one input
           CacheKey, Order, PkCache,
@@ -61,7 +67,7 @@ V(d, c) ==
     [] d = 2 -> (IF c \in {"eth", "ethmix"} THEN "nil" ELSE "ErrInvalidEthAddr")
     [] OTHER -> "ErrAddressType"
 
-EnableAt(d) == CASE d = 1 -> EnMs [] d = 2 -> EnEth [] OTHER -> 0
+EnableAt(d) == IF d \in OffDrivers THEN -1 ELSE CASE d = 1 -> EnMs [] d = 2 -> EnEth [] OTHER -> 0
 IsEnable(h, e) == h < 0 \/ (e >= 0 /\ e <= h)
 En(h) == {d \in Drivers : IsEnable(h, EnableAt(d))}
 IsFork(h, f) == h = -1 \/ h >= f
@@ -84,10 +90,14 @@ Compat(e, c, h) ==
 DappAns(c, h) == Compat(AddrAns(c, h), c, h)
 NodeH(h) == IF h < 0 THEN 0 ELSE h
 PkAns(h) == IF IsFork(NodeH(h), FkFmt) THEN "lower" ELSE "mixed"
-SignAns(h) == h < 0 \/ h >= EnSig
+SignAns(h) == h < 0 \/ (~SigOff /\ h >= EnSig)
 
 \* ---- the mechanism ----------------------------------------------------------
-Key(c, h) == IF CacheKey = "addr" THEN <<c>> ELSE <<c, En(h)>>
+\* "addr+gated": only drivers with a positive enable height enter the key - a driver disabled by a
+\* negative enable height is still on at h = -1 ("no height context"), so -1 and h >= 0 collide
+Key(c, h) == IF CacheKey = "addr" THEN <<c>>
+             ELSE IF CacheKey = "addr+gated" THEN <<c, {d \in En(h) : EnableAt(d) > 0}>>
+             ELSE <<c, En(h)>>
 \* what an uncached evaluation can return
 Poss(c, h) ==
   IF En(h) = {} \/ Accepts(c, h) THEN {"nil"}
